@@ -17,6 +17,7 @@ pub mod rules;
 pub mod c10;
 pub mod c12;
 pub mod c14;
+pub mod c15;
 pub mod c16;
 pub mod c18;
 pub mod pat;
